@@ -50,12 +50,19 @@ VARIABLES prog,      \* [Clients -> Kinds]: what each client runs (chosen initia
           ckpt,      \* persisted checkpoint (CAS)
           ckpend,    \* checkpoint write's event not yet posted
           stops,     \* stop/restart cycles done
+          held,      \* the event the runner has pulled off the queue and not yet handed to the callback (0 = none):
+                     \* closing the queue does not take it back
+          dropped,   \* history: a stop discarded the queued mutation whose CAS directly follows the checkpoint
+                     \* (such schedules are preferred when sampling)
           sched      \* the schedule so far (sequence of process names) - observation only
-vars == <<prog, doc, clock, pc, seen, pend, okcount, fpc, queue, delivered, lastRun, ckpt, ckpend, stops, sched>>
+vars == <<prog, doc, clock, pc, seen, pend, okcount, fpc, queue, delivered, lastRun, ckpt, ckpend, stops, dropped, held, sched>>
 
 Registered == fpc \in {"registered", "running", "stopping"}
 
-Push(q, c) == IF Registered THEN Append(q, c) ELSE q
+(* posting an event: a runner that is waiting on the empty queue takes it at once *)
+RunnerWaiting == fpc = "running" /\ held = 0 /\ queue = <<>>
+Push(q, c) == IF Registered /\ ~RunnerWaiting THEN Append(q, c) ELSE q
+Take(c) == IF Registered /\ RunnerWaiting THEN c ELSE held
 
 Init ==
     /\ prog \in [Clients -> Kinds]
@@ -70,6 +77,8 @@ Init ==
     /\ delivered = <<>>
     /\ lastRun = <<>>
     /\ ckpt = 0
+    /\ dropped = FALSE
+    /\ held = 0
     /\ ckpend = 0
     /\ stops = 0
     /\ sched = <<>>
@@ -81,21 +90,23 @@ Commit(p, newdoc, n) ==
     /\ okcount' = [okcount EXCEPT ![p] = @ + 1]
     /\ IF PostUnderLock
        THEN /\ queue' = Push(queue, n)
+            /\ held' = Take(n)
             /\ pend' = pend
             /\ pc' = [pc EXCEPT ![p] = "done"]
        ELSE /\ queue' = queue
+            /\ held' = held
             /\ pend' = [pend EXCEPT ![p] = n]
             /\ pc' = [pc EXCEPT ![p] = "post"]
 
 Fail(p, next) ==
     /\ pc' = [pc EXCEPT ![p] = next]
-    /\ UNCHANGED <<prog, doc, clock, okcount, queue, pend>>
+    /\ UNCHANGED <<prog, doc, clock, okcount, queue, pend, dropped, held>>
 
 (* the client's code up to the point where it asks for the bucket mutex: no shared state is touched *)
 Enter(p) ==
     /\ pc[p] = "enter"
     /\ pc' = [pc EXCEPT ![p] = "start"]
-    /\ UNCHANGED <<prog, doc, clock, seen, pend, okcount, queue, fpc, delivered, lastRun, ckpt, ckpend, stops>>
+    /\ UNCHANGED <<prog, doc, clock, seen, pend, okcount, queue, fpc, delivered, lastRun, ckpt, ckpend, stops, dropped, held>>
 
 (* first step of a client *)
 Start(p) ==
@@ -118,12 +129,12 @@ Start(p) ==
          [] prog[p] = "update" ->      \* the read phase of an Update-style loop
               /\ seen' = [seen EXCEPT ![p] = [cas |-> doc.cas, val |-> doc.val]]
               /\ pc' = [pc EXCEPT ![p] = "txn"]
-              /\ UNCHANGED <<prog, doc, clock, okcount, queue, pend>>
+              /\ UNCHANGED <<prog, doc, clock, okcount, queue, pend, dropped, held>>
          [] prog[p] = "get" ->
               /\ seen' = [seen EXCEPT ![p] = [cas |-> doc.cas, val |-> doc.val]]
               /\ pc' = [pc EXCEPT ![p] = "done"]
-              /\ UNCHANGED <<prog, doc, clock, okcount, queue, pend>>
-    /\ UNCHANGED <<prog, fpc, delivered, lastRun, ckpt, ckpend, stops>>
+              /\ UNCHANGED <<prog, doc, clock, okcount, queue, pend, dropped, held>>
+    /\ UNCHANGED <<prog, fpc, delivered, lastRun, ckpt, ckpend, stops, dropped>>
 
 (* callback + CAS write of an Update-style loop; a mismatch goes back to reading *)
 Txn(p) ==
@@ -133,14 +144,17 @@ Txn(p) ==
        IF doc.cas = seen[p].cas
        THEN Commit(p, [cas |-> n, val |-> seen[p].val + 1, live |-> TRUE], n)
        ELSE Fail(p, "start")
-    /\ UNCHANGED <<prog, fpc, delivered, lastRun, ckpt, ckpend, stops>>
+    /\ UNCHANGED <<prog, fpc, delivered, lastRun, ckpt, ckpend, stops, dropped>>
 
 Post(p) ==
     /\ pc[p] = "post"
     /\ queue' = Push(queue, pend[p])
+    /\ held' = Take(pend[p])
     /\ pend' = [pend EXCEPT ![p] = 0]
     /\ pc' = [pc EXCEPT ![p] = "done"]
-    /\ UNCHANGED <<prog, doc, clock, seen, okcount, fpc, delivered, lastRun, ckpt, ckpend, stops>>
+    /\ UNCHANGED <<prog, doc, clock, seen, okcount, fpc, delivered, lastRun, ckpt, ckpend, stops, dropped>>
+
+Max(s) == IF s = {} THEN 0 ELSE CHOOSE m \in s : \A x \in s : x <= m
 
 (* the feed starter *)
 BackfillEvents == IF doc.cas > ckpt THEN <<doc.cas>> ELSE <<>>
@@ -149,34 +163,37 @@ FeedStep ==
        /\ queue' = IF FeedBackfill THEN <<-1>> \o BackfillEvents \o <<-2>> ELSE <<>>
        /\ fpc' = IF RegisterAtomic THEN "registered" ELSE "backfilled"
        /\ lastRun' = <<>>
-       /\ UNCHANGED <<prog, doc, clock, pc, seen, pend, okcount, delivered, ckpt, ckpend, stops>>
+       /\ UNCHANGED <<prog, doc, clock, pc, seen, pend, okcount, delivered, ckpt, ckpend, stops, dropped, held>>
     \/ /\ fpc = "backfilled"
        /\ fpc' = "registered"
-       /\ UNCHANGED <<prog, doc, clock, pc, seen, pend, okcount, queue, delivered, lastRun, ckpt, ckpend, stops>>
-    \/ /\ fpc = "registered"
+       /\ UNCHANGED <<prog, doc, clock, pc, seen, pend, okcount, queue, delivered, lastRun, ckpt, ckpend, stops, dropped, held>>
+    \/ /\ fpc = "registered"                   \* the runner starts and pulls its first event
        /\ fpc' = "running"
-       /\ UNCHANGED <<prog, doc, clock, pc, seen, pend, okcount, queue, delivered, lastRun, ckpt, ckpend, stops>>
+       /\ held' = IF queue # <<>> THEN Head(queue) ELSE 0
+       /\ queue' = IF queue # <<>> THEN Tail(queue) ELSE queue
+       /\ UNCHANGED <<prog, doc, clock, pc, seen, pend, okcount, delivered, lastRun, ckpt, ckpend, stops, dropped>>
     \/ /\ fpc = "running" /\ stops < Stops      \* stop: the terminator closes the queue, queued events are dropped
        /\ fpc' = "ckpt"
        /\ queue' = <<>>
        /\ stops' = stops + 1
-       /\ UNCHANGED <<prog, doc, clock, pc, seen, pend, okcount, delivered, lastRun, ckpt, ckpend>>
-
-Max(s) == IF s = {} THEN 0 ELSE CHOOSE m \in s : \A x \in s : x <= m
+       /\ dropped' = (dropped \/ \E i \in 1..Len(queue) :     \* ... the one right after the checkpoint to be
+                                  queue[i] = 1 + Max({lastRun[j] : j \in 1..Len(lastRun)} \cup {ckpt, held}))
+       /\ UNCHANGED <<prog, doc, clock, pc, seen, pend, okcount, delivered, lastRun, ckpt, ckpend, held>>
 
 (* the feed runner *)
 RunStep ==
-    \/ /\ Registered /\ fpc # "registered" /\ queue # <<>>     \* deliver one event
+    \/ /\ held # 0 /\ fpc \in {"running", "ckpt"}    \* hand the held event to the callback, then pull the next one
        /\ (DeliverLast => \A p \in Clients : pc[p] = "done")
-       /\ delivered' = IF Head(queue) > 0 THEN Append(delivered, Head(queue)) ELSE delivered
-       /\ lastRun' = IF Head(queue) > 0 THEN Append(lastRun, Head(queue)) ELSE lastRun
-       /\ queue' = Tail(queue)
-       /\ UNCHANGED <<prog, doc, clock, pc, seen, pend, okcount, fpc, ckpt, ckpend, stops>>
-    \/ /\ fpc = "ckpt"                        \* the stopped runner persists its checkpoint (a Set of another key)
+       /\ delivered' = IF held > 0 THEN Append(delivered, held) ELSE delivered
+       /\ lastRun' = IF held > 0 THEN Append(lastRun, held) ELSE lastRun
+       /\ held' = IF fpc = "running" /\ queue # <<>> THEN Head(queue) ELSE 0
+       /\ queue' = IF fpc = "running" /\ queue # <<>> THEN Tail(queue) ELSE queue
+       /\ UNCHANGED <<prog, doc, clock, pc, seen, pend, okcount, fpc, ckpt, ckpend, stops, dropped>>
+    \/ /\ fpc = "ckpt" /\ held = 0            \* the stopped runner persists its checkpoint (a Set of another key)
        /\ ckpt' = IF lastRun = <<>> THEN ckpt ELSE Max({lastRun[i] : i \in 1..Len(lastRun)} \cup {ckpt})
        /\ clock' = clock + 1
        /\ fpc' = "start"
-       /\ UNCHANGED <<prog, doc, pc, seen, pend, okcount, queue, delivered, lastRun, ckpend, stops>>
+       /\ UNCHANGED <<prog, doc, pc, seen, pend, okcount, queue, delivered, lastRun, ckpend, stops, dropped, held>>
 
 Next ==
     \/ \E p \in Clients : (Enter(p) \/ Start(p) \/ Txn(p) \/ Post(p)) /\ sched' = Append(sched, p)
@@ -185,11 +202,11 @@ Next ==
 
 Spec == Init /\ [][Next]_vars
 
-View == <<prog, doc, clock, pc, seen, pend, okcount, fpc, queue, delivered, lastRun, ckpt, ckpend, stops>>
+View == <<prog, doc, clock, pc, seen, pend, okcount, fpc, queue, delivered, lastRun, ckpt, ckpend, stops, dropped, held>>
 
 ---------------------------------------------------------------------------
 Quiescent == /\ \A p \in Clients : pc[p] = "done"
-             /\ fpc \in {"running", "off"} /\ queue = <<>> /\ stops = Stops
+             /\ fpc \in {"running", "off"} /\ queue = <<>> /\ held = 0 /\ stops = Stops
 
 (* C08: events reach the feed in increasing CAS order *)
 FeedCasOrdered == \A i, j \in 1..Len(lastRun) : i < j => lastRun[i] < lastRun[j]
@@ -206,8 +223,8 @@ NoLostUpdate ==
     (\A p \in Clients : pc[p] = "done" /\ prog[p] \in {"incr", "update"}) =>
         doc.val = Cardinality({p \in Clients : okcount[p] > 0})
 (* behaviour generation: print the schedule of every maximal behaviour *)
-Terminal == (\A p \in Clients : pc[p] = "done") /\ (fpc = "off" \/ (fpc = "running" /\ queue = <<>> /\ stops = Stops))
-PrintSchedules == Terminal => PrintT("SCHEDULE " \o ToJson([prog |-> prog, sched |-> sched]))
+Terminal == (\A p \in Clients : pc[p] = "done") /\ (fpc = "off" \/ (fpc = "running" /\ queue = <<>> /\ held = 0 /\ stops = Stops))
+PrintSchedules == Terminal => PrintT("SCHEDULE " \o ToJson([prog |-> prog, sched |-> sched, dropped |-> dropped]))
 
 (* every Update eventually succeeded exactly once *)
 UpdatesApplied == \A p \in Clients : (pc[p] = "done" /\ prog[p] \in {"incr", "update", "set"}) => okcount[p] = 1
